@@ -185,8 +185,9 @@ class MethodWalker:
         if isinstance(target, ast.Name):
             env[target.id] = o
         elif isinstance(target, (ast.Tuple, ast.List)):
+            # unpacking a field that holds a tuple / record: every name is a part of that field
             for t in target.elts:
-                self._bind(t, OTHER, env)
+                self._bind(t, self._elem(o) if o != OTHER else OTHER, env)
 
     # -- walking ------------------------------------------------------------
     def _walk_method(self, ci: ClassInfo, fn: ast.FunctionDef, depth: int, env: Optional[Dict[str, Origin]] = None):
